@@ -10,12 +10,15 @@ CONSTANTS Tier
 Vocab == [ atoms |-> [ none |-> "" ] ]
 
 Paths   == {"callback", "refresh", "bearer"}
+\* histories: the SAME token presented twice, valid the first time and past its expiry the second (bearer header / the ID token of a
+\* session that can only be re-validated because the provider refuses the refresh)
+TwicePaths == {"bearer_twice", "validate_twice"}
 Keys    == {"discovery", "static"}
 Sigs    == {"right", "otherkey", "algnone", "hs256pub"}
 Issuers == {"match", "other"}
 \* shape of the audience claim (the configured audience claim: aud, or azp when audClaim = "azp")
 Auds    == {"client", "other", "list_with", "list_without", "extra", "number", "object", "absent"}
-Exps    == {"future", "past"}
+Exps    == {"future", "past"}                          \* "expiring" (valid now, expired a few seconds later) only on TwicePaths
 EVs     == {"true", "false", "absent"}                  \* standard email_verified claim in the token
 \* where the session's claims live.  tok: all in the token.  email_prof: the token lacks e-mail (profile has it; the profile also
 \* carries OTHER groups / username than the token).  groups_prof: the token lacks groups and preferred_username (profile has them).
@@ -56,11 +59,15 @@ InScope(c) ==
     /\ (Tier = "thorough" => Differs(c.tok) <= 2 /\ (c.cfg.keys = "static" => Differs(c.tok) <= 1))
 
 VARIABLE c
-Init == \E cfg \in Cfg, t \in Tok, p \in Paths : c = [cfg |-> cfg, tok |-> t, path |-> p] /\ InScope(c)
+Init == \/ \E cfg \in Cfg, t \in Tok, p \in Paths : c = [cfg |-> cfg, tok |-> t, path |-> p] /\ InScope(c)
+        \/ \E cfg \in Cfg, p \in TwicePaths : /\ c = [cfg |-> cfg, tok |-> [Good EXCEPT !.exp = "expiring"], path |-> p]
+                                              /\ ~cfg.extraAud /\ cfg.audClaim = "aud" /\ ~cfg.allowUnverified
 Next == UNCHANGED c
 
+\* acceptability is evaluated at each presentation: what was acceptable once is not acceptable for ever
 CaseRec == [fam |-> "tokens", in |-> c,
-            req |-> IF Req_Acceptable(c.tok, c.cfg, c.path)
+            req |-> IF c.path \in TwicePaths THEN [accepted |-> TRUE, acceptedAfterExpiry |-> FALSE, panic |-> FALSE]
+                    ELSE IF Req_Acceptable(c.tok, c.cfg, c.path)
                     THEN [accepted |-> TRUE, identity |-> Req_Identity(c.tok, c.path), panic |-> FALSE]
                     ELSE [accepted |-> FALSE, panic |-> FALSE]]
 EmitVocab == JsonSerialize("vocab.json", Vocab)
